@@ -25,7 +25,7 @@ impl Monitor for C04 {
             gen("random-long", tier.pick(3_000, 200_000, 10)),
             gen("answer-fill", tier.pick(4_000, 200_000, 4)),
             gen("single-channel", 9 * 3 * 16 * tier.pick(2, 20, 0)),
-            gen("join-marathon", tier.pick(120, 3_000, 0)),
+            gen("odd-sizes", tier.pick(540, 54_000, 0)), gen("join-marathon", tier.pick(120, 3_000, 0)),
         ]
     }
     fn rule(&self) -> String {
@@ -89,6 +89,17 @@ impl Monitor for C04 {
                 let front = FRONTS[((idx / 9) % 3) as usize];
                 let ch = ((idx / 27) % 16) as u8;
                 single_channel(reg, front, ch, rng, col);
+            }
+            "odd-sizes" => {
+                let reg = regions::ALL[(idx % 9) as usize];
+                match (idx / 9) % 6 {
+                    0 => odd_sizes::<256, 0>(reg, rng, col),
+                    1 => odd_sizes::<256, 1>(reg, rng, col),
+                    2 => odd_sizes::<64, 0>(reg, rng, col),
+                    3 => odd_sizes::<32, 1>(reg, rng, col),
+                    4 => odd_sizes::<255, 2>(reg, rng, col),
+                    _ => odd_sizes::<24, 4>(reg, rng, col),
+                }
             }
             _ => {
                 let reg = regions::ALL[(idx % 9) as usize];
@@ -773,4 +784,87 @@ fn place_join_accept(front: Front, f: Vec<u8>, script: &mut Script, rng: &mut Pr
     } else {
         script.rx2.push(f);
     }
+}
+
+
+/// State-machine devices built with other sizes than the usual ones: radio buffers of 24..256 octets,
+/// downlink queues of 0, 1, 2 entries (the const generics N and D). Benign downlinks with and without
+/// payload, hostile MAC commands, frames longer than the buffer, application payloads that may not fit
+/// the buffer, an application that collects its downlinks or does not: every call returns, and the
+/// device still transmits.
+fn odd_sizes<const N: usize, const D: usize>(reg: Reg, rng: &mut Prng, col: &mut Collector) {
+    let mut d: SmallNb<N, D> = SmallNb::new(reg, rng);
+    let drs = uplink_drs(reg);
+    d.dev.set_datarate(lorawan_device::region::DR::from(*drs.iter().max().unwrap()));
+    let n = rng.range(6, 16);
+    let mut fdown = 0u32;
+    let mut trace: Vec<String> = vec![];
+    let lazy = rng.chance(1, 3);
+    for i in 0..n {
+        let mut script = Script::silent();
+        let what = rng.below(6);
+        let f: Option<Vec<u8>> = match what {
+            0 => None,
+            1 | 2 => {
+                fdown += 1;
+                let p = rng.bytes_below(6);
+                Some(d.net.downlink(&Down { fcnt: fdown, port: Some(rng.range(1, 200) as u8), payload: &p, confirmed: rng.bool(), ..Default::default() }))
+            }
+            3 => {
+                fdown += 1;
+                Some(d.net.mac_downlink(fdown, &hostile_mac(reg, rng, None), rng.bool()))
+            }
+            4 => {
+                let len = N + 1 + rng.below(12) as usize;
+                let mut v = rng.bytes(len);
+                v[0] = 0x60;
+                Some(v)
+            }
+            _ => {
+                // an authentic downlink that fills the buffer exactly, or goes one beyond
+                fdown += 1;
+                let len = (N + rng.below(2) as usize).clamp(13, 255);
+                let payload = vec![7u8; len - 13];
+                Some(d.net.downlink(&Down { fcnt: fdown, port: Some(9), payload: &payload, ..Default::default() }))
+            }
+        };
+        if let Some(f) = f {
+            if rng.bool() {
+                script.rx1.push(f);
+            } else {
+                script.rx2.push(f);
+            }
+        }
+        // application payloads around what the buffer can take (13 octets of frame around them)
+        let dlen = if rng.chance(1, 3) { N.saturating_sub(16) + rng.below(8) as usize } else { rng.below(6) as usize };
+        let data = rng.bytes(dlen.min(255));
+        let r = d.transact(Action::Send { data: &data, port: 3, confirmed: rng.chance(1, 4) }, &script);
+        col.event("calls_returned");
+        trace.push(format!("{}:{}", ["silent", "benign", "benign", "hostile-mac", "longer-than-buffer", "fills-buffer"][what as usize], r.kind()));
+        if let Resp::Panic(m, l) = &r {
+            col.violation(&format!("C04|panic|{}|{}|odd-sizes:N={},D={}", short_loc(l), lrv_core::runner::Trapped { msg: m.clone(), loc: l.clone() }.kind(), N, D), "a call into the stack panicked", json!({"region": reg.name(), "buffer": N, "queue": D, "step": i, "trace": trace, "msg": m, "loc": l}));
+            return;
+        }
+        if !lazy {
+            let taken = trap(|| d.take_downlinks());
+            if let Err(t) = taken {
+                col.violation(&format!("C04|panic|{}|take_downlink|odd-sizes:N={},D={}", short_loc(&t.loc), N, D), "take_downlink panicked", json!({"msg": t.msg, "loc": t.loc, "trace": trace}));
+                return;
+            }
+        }
+    }
+    // the device can still transmit
+    let ev0 = d.ev_len();
+    let r = d.transact(Action::Send { data: &[0xEE], port: 9, confirmed: false }, &Script::silent());
+    if let Resp::Panic(m, l) = &r {
+        col.violation(&format!("C04|panic|{}|final-send|odd-sizes:N={},D={}", short_loc(l), N, D), "a call into the stack panicked", json!({"msg": m, "loc": l, "trace": trace}));
+        return;
+    }
+    if d.tx_since(ev0).is_empty() {
+        col.violation(&format!("C04|cannot-transmit-afterwards|nb|send|{}|odd-sizes:N={},D={}", r.kind(), N, D), "after the history the device no longer hands a frame to the radio", json!({"region": reg.name(), "trace": trace, "response": format!("{:?}", r)}));
+    } else {
+        col.event("still_transmits");
+    }
+    col.event("odd_size_histories");
+    col.eval(&format!("odd-sizes|{}|N={}|D={}|{}", reg.name(), N, D, trace.iter().map(|t| t.split(':').next().unwrap_or("")).collect::<Vec<_>>().join(",")));
 }
